@@ -70,6 +70,9 @@ pub fn install_quiet_panic_hook() {
                     .location()
                     .map(|l| (l.file().to_string(), l.line(), l.column()))
                     .unwrap_or_else(|| ("<unknown>".to_string(), 0, 0));
+                if std::env::var_os("VERIF_BT").is_some() {
+                    eprintln!("VERIF_BT panic at {}:{}: {}\n{}", file, line, msg, std::backtrace::Backtrace::force_capture());
+                }
                 LAST.with(|l| *l.borrow_mut() = Some(PanicInfo { msg, file, line, col }));
             } else {
                 default(info);
